@@ -879,4 +879,825 @@ theorem dataFirst_obs (kw : List (N × V))
 
 end dataFirst
 
+/-! ### field-first: the dict the fields are looked up in, and the scan of one field's spellings -/
+
+theorem inj_of_nodup_map {α β : Type} (g : α → β) (l : List α) (h : (l.map g).Nodup) {a b : α}
+    (ha : a ∈ l) (hb : b ∈ l) (hab : g a = g b) : a = b := by
+  induction l with
+  | nil => cases ha
+  | cons x l ih =>
+    simp only [List.map_cons, List.nodup_cons] at h
+    rcases List.mem_cons.mp ha with rfl | ha' <;> rcases List.mem_cons.mp hb with rfl | hb'
+    · rfl
+    · exact absurd (hab ▸ List.mem_map_of_mem hb') h.1
+    · exact absurd (hab.symm ▸ List.mem_map_of_mem ha') h.1
+    · exact ih h.2 ha' hb'
+
+theorem lookup_of_mem_nodup (l : List (N × V)) (h : (l.map (·.1)).Nodup) (e : N × V) (he : e ∈ l) :
+    l.lookup e.1 = some e.2 := by
+  induction l with
+  | nil => cases he
+  | cons x l ih =>
+    obtain ⟨k, v⟩ := x
+    simp only [List.map_cons, List.nodup_cons] at h
+    rcases List.mem_cons.mp he with rfl | he'
+    · simp
+    · have : e.1 ≠ k := fun hk => h.1 (hk ▸ List.mem_map_of_mem he')
+      have hb : (e.1 == k) = false := by simpa using this
+      simp only [List.lookup_cons, hb]
+      exact ih h.2 he'
+
+theorem mem_of_lookup (l : List (N × V)) (x : N) (v : V) (h : l.lookup x = some v) : (x, v) ∈ l := by
+  induction l with
+  | nil => cases h
+  | cons e l ih =>
+    obtain ⟨k, w⟩ := e
+    simp only [List.lookup_cons] at h
+    by_cases hx : x = k
+    · subst hx; simp at h; subst h; simp
+    · have hb : (x == k) = false := by simpa using hx
+      simp only [hb] at h
+      exact List.mem_cons_of_mem _ (ih h)
+
+/-- the lower-casing fold of `field_first_parse`: with at most one given key looked up as `x`, `x` finds it -/
+theorem lookup_fold_dictSet (K : N → N) (x : N) (data : List (N × V)) :
+    ∀ (acc : List (N × V)),
+    (∀ e₁ ∈ data, ∀ e₂ ∈ data, K e₁.1 = x → K e₂.1 = x → e₁ = e₂) →
+    (data.foldl (fun d e => dictSet d (K e.1) e.2) acc).lookup x
+      = ((data.find? (fun e => K e.1 == x)).map (·.2)).or (acc.lookup x) := by
+  induction data with
+  | nil => intro acc _; simp
+  | cons e data ih =>
+    intro acc huniq
+    simp only [List.foldl_cons]
+    rw [ih _ (fun a ha b hb => huniq a (by simp [ha]) b (by simp [hb]))]
+    rw [lookup_dictSet]
+    by_cases hk : K e.1 = x
+    · have hb : (K e.1 == x) = true := by simpa using hk
+      simp only [List.find?_cons, hb, Option.map_some, Option.some_or, hk, if_true]
+      cases hf : data.find? (fun e => K e.1 == x) with
+      | none => simp
+      | some e' =>
+        have he' := List.mem_of_find?_eq_some hf
+        have hke : K e'.1 = x := by simpa using List.find?_some hf
+        have := huniq e (by simp) e' (by simp [he']) hk hke
+        subst this
+        simp
+    · have hb : (K e.1 == x) = false := by simpa using hk
+      have hx : ¬ x = K e.1 := fun h => hk h.symm
+      simp [List.find?_cons, hb, hx]
+
+theorem ffScan_agree (o : Opts) (data' : List (N × V)) (u : Option V) (names : List N) :
+    ∀ (acc : Option V), (acc = none ∨ acc = u) →
+    (∀ al ∈ names, data'.lookup al = none ∨ data'.lookup al = u) →
+    ffScan o data' names acc = .ok (acc.or (names.findSome? (fun al => data'.lookup al))) := by
+  induction names with
+  | nil => intro acc _ _; simp [ffScan]
+  | cons al als ih =>
+    intro acc hacc hall
+    have hall' : ∀ al ∈ als, data'.lookup al = none ∨ data'.lookup al = u := fun a ha => hall a (by simp [ha])
+    unfold ffScan
+    cases hl : data'.lookup al with
+    | none =>
+      simp only [List.findSome?_cons, hl]
+      exact ih acc hacc hall'
+    | some x =>
+      have hux : u = some x := by
+        rcases hall al (by simp) with h | h
+        · rw [hl] at h; cases h
+        · rw [hl] at h; exact h.symm
+      simp only [List.findSome?_cons, hl]
+      cases acc with
+      | none =>
+        simp only [Option.none_or]
+        rw [ih (some x) (Or.inr hux.symm) hall']
+        simp
+      | some v =>
+        have hv : v = x := by
+          rcases hacc with h | h
+          · cases h
+          · rw [hux] at h; injection h
+        subst hv
+        simp only [Option.some_or]
+        by_cases hi : o.ignoreAliasConflicts = true
+        · simp [hi]
+        · simp only [hi, Bool.false_eq_true, if_false, bne_self_eq_false]
+          rw [ih (some v) (Or.inr hux.symm) hall']
+          simp
+
+section fieldFirst
+variable (W : World N V T) (hW : LowerIdem W) (s : Sig N V T) (wf : WF W s) (o : Opts) (excl : List N)
+include hW wf
+
+theorem ffKey_mem_iff (f : Param N V T) (hf : f ∈ s.fields W) (k : N) :
+    ffKey W (s.fields W) k ∈ f.allNames W ↔ Matches W f k := by
+  unfold ffKey Matches
+  by_cases hc : (ciNames W (s.fields W)).contains (W.lower k) = true
+  · simp only [hc, if_true]
+    have hmem : W.lower k ∈ ciNames W (s.fields W) := by simpa using hc
+    constructor
+    · intro h
+      by_cases cf : f.ci = true
+      · exact Or.inr ⟨cf, h⟩
+      · exfalso
+        have := wf.ci_sep f hf (by simpa using cf) _ h
+        rw [hW] at this
+        exact this hmem
+    · rintro (h | ⟨_, h⟩)
+      · by_cases cf : f.ci = true
+        · rw [← lower_fixed_of_ci W hW f cf k h] at h; exact h
+        · exfalso
+          exact wf.ci_sep f hf (by simpa using cf) k h hmem
+      · exact h
+  · simp only [hc, Bool.false_eq_true, if_false]
+    constructor
+    · intro h; exact Or.inl h
+    · rintro (h | ⟨cf, h⟩)
+      · exact h
+      · exfalso
+        apply hc
+        simpa using allNames_sub_ciNames W _ f hf cf _ h
+
+/-- for a keyword-capable field: a non-private key normalises to its name exactly when `get_field` maps it there -/
+theorem normKey_eq_iff (f : Param N V T) (hf : f ∈ s.fields W) (hkw : f ∈ Spec.kwParams s) (k : N)
+    (hk : k ∉ s.excludeVars W) : Spec.normKey W s k = f.name ↔ Matches W f k := by
+  constructor
+  · intro h
+    cases hr : resolve W (s.fields W) k with
+    | none =>
+      exfalso
+      obtain ⟨h1, h2, _⟩ := key_extra W hW s wf k hk (Or.inl hr)
+      rw [h1] at h
+      rw [h, (kwTarget_iff s _).mpr ⟨f, hkw, rfl⟩] at h2
+      cases h2
+    | some g =>
+      cases hpo : g.posOnly with
+      | true =>
+        exfalso
+        obtain ⟨h1, h2, _⟩ := key_extra W hW s wf k hk (Or.inr ⟨g, hr, hpo⟩)
+        rw [h1] at h
+        rw [h, (kwTarget_iff s _).mpr ⟨f, hkw, rfl⟩] at h2
+        cases h2
+      | false =>
+        obtain ⟨h1, h2, _, _, _⟩ := key_field W hW s wf k hk g hr hpo
+        have : g = f := eq_of_name_eq wf.names_nodup (kwParams_sub W hW s wf g h2).1
+          (kwParams_sub W hW s wf f hkw).1 (by rw [← h1, h])
+        subst this
+        exact (matches_of_resolve W hW s wf k g hr).2
+  · intro hm
+    have hr := resolve_of_matches W hW s wf k f hf hm
+    exact (key_field W hW s wf k hk f hr (kwParams_sub W hW s wf f hkw).2).1
+
+theorem ffScan_field (data : List (N × V)) (h1 : ∀ e ∈ data, e.1 ∉ s.excludeVars W)
+    (hn : ((Spec.normalise W s data).map (·.1)).Nodup)
+    (f : Param N V T) (hf : f ∈ s.fields W) (hkw : f ∈ Spec.kwParams s) :
+    ffScan o (ffData W (s.fields W) data) (f.allNames W) none
+      = .ok ((Spec.normalise W s data).lookup f.name) := by
+  -- at most one given key is looked up under a spelling of f
+  have hnn : (data.map (fun e => Spec.normKey W s e.1)).Nodup := by
+    have : (Spec.normalise W s data).map (·.1) = data.map (fun e => Spec.normKey W s e.1) := by
+      simp [Spec.normalise, List.map_map, Function.comp_def]
+    rw [← this]; exact hn
+  have huniq : ∀ e₁ ∈ data, ∀ e₂ ∈ data, Matches W f e₁.1 → Matches W f e₂.1 → e₁ = e₂ := by
+    intro e₁ h₁ e₂ h₂ m₁ m₂
+    apply inj_of_nodup_map (fun e => Spec.normKey W s e.1) data hnn h₁ h₂
+    show Spec.normKey W s e₁.1 = Spec.normKey W s e₂.1
+    rw [(normKey_eq_iff W hW s wf f hf hkw e₁.1 (h1 e₁ h₁)).mpr m₁,
+      (normKey_eq_iff W hW s wf f hf hkw e₂.1 (h1 e₂ h₂)).mpr m₂]
+  -- what a spelling of f finds in the lookup dict
+  have hlook : ∀ al ∈ f.allNames W, (ffData W (s.fields W) data).lookup al
+      = (data.find? (fun e => ffKey W (s.fields W) e.1 == al)).map (·.2) := by
+    intro al hal
+    unfold ffData
+    by_cases hci : (ciNames W (s.fields W)).isEmpty = true
+    · simp only [hci, if_true]
+      have hK : ∀ k, ffKey W (s.fields W) k = k := by
+        intro k
+        unfold ffKey
+        have : ciNames W (s.fields W) = [] := by simpa using hci
+        simp [this]
+      simp only [hK]
+      clear huniq hnn hn h1
+      induction data with
+      | nil => rfl
+      | cons e data ih =>
+        obtain ⟨k, v⟩ := e
+        simp only [List.lookup_cons, List.find?_cons]
+        by_cases hk : al = k
+        · subst hk; simp
+        · have h1 : (al == k) = false := by simpa using hk
+          have h2 : (k == al) = false := by simpa using fun h => hk h.symm
+          simp only [h1, h2]
+          exact ih
+    · simp only [hci, Bool.false_eq_true, if_false]
+      rw [lookup_fold_dictSet]
+      · simp
+      · intro e₁ h₁ e₂ h₂ k₁ k₂
+        apply huniq e₁ h₁ e₂ h₂
+        · exact (ffKey_mem_iff W hW s wf f hf e₁.1).mp (k₁ ▸ hal)
+        · exact (ffKey_mem_iff W hW s wf f hf e₂.1).mp (k₂ ▸ hal)
+  have hnk : ((Spec.normalise W s data).map (·.1)).Nodup := hn
+  -- every spelling present carries the value the normalised call has for f
+  have hall : ∀ al ∈ f.allNames W, (ffData W (s.fields W) data).lookup al = none ∨
+      (ffData W (s.fields W) data).lookup al = (Spec.normalise W s data).lookup f.name := by
+    intro al hal
+    rw [hlook al hal]
+    cases hfind : data.find? (fun e => ffKey W (s.fields W) e.1 == al) with
+    | none => exact Or.inl rfl
+    | some e =>
+      refine Or.inr ?_
+      have he := List.mem_of_find?_eq_some hfind
+      have hke : ffKey W (s.fields W) e.1 = al := by simpa using List.find?_some hfind
+      have hm : Matches W f e.1 := (ffKey_mem_iff W hW s wf f hf e.1).mp (hke ▸ hal)
+      have hnorm := (normKey_eq_iff W hW s wf f hf hkw e.1 (h1 e he)).mpr hm
+      have hmem : (Spec.normKey W s e.1, e.2) ∈ Spec.normalise W s data := by
+        simp only [Spec.normalise, List.mem_map]; exact ⟨e, he, rfl⟩
+      have := lookup_of_mem_nodup _ hnk _ hmem
+      simp only [hnorm] at this
+      simp [this]
+  rw [ffScan_agree o _ ((Spec.normalise W s data).lookup f.name) _ none (Or.inl rfl) hall]
+  simp only [Option.none_or]
+  congr 1
+  cases hu : (Spec.normalise W s data).lookup f.name with
+  | none =>
+    rw [List.findSome?_eq_none_iff]
+    intro al hal
+    rcases hall al hal with h | h
+    · exact h
+    · rw [h, hu]
+  | some x =>
+    -- the key that carries x is looked up under one of f's spellings
+    have hmem := mem_of_lookup _ _ _ hu
+    simp only [Spec.normalise, List.mem_map] at hmem
+    obtain ⟨e, he, heq⟩ := hmem
+    have hnorm : Spec.normKey W s e.1 = f.name := by injection heq
+    have hval : e.2 = x := by injection heq
+    have hm := (normKey_eq_iff W hW s wf f hf hkw e.1 (h1 e he)).mp hnorm
+    have hal := (ffKey_mem_iff W hW s wf f hf e.1).mpr hm
+    have hl : (ffData W (s.fields W) data).lookup (ffKey W (s.fields W) e.1) = some x := by
+      rcases hall _ hal with h | h
+      · exfalso
+        rw [hlook _ hal] at h
+        have : data.find? (fun e' => ffKey W (s.fields W) e'.1 == ffKey W (s.fields W) e.1) ≠ none := by
+          intro hnone
+          exact (List.find?_eq_none.mp hnone) e he (by simp)
+        cases hfd : data.find? (fun e' => ffKey W (s.fields W) e'.1 == ffKey W (s.fields W) e.1) with
+        | none => exact this hfd
+        | some _ => simp [hfd] at h
+      · rw [h, hu]
+    -- findSome? returns the first present spelling; all present spellings carry x
+    cases hfs : (f.allNames W).findSome? (fun al => (ffData W (s.fields W) data).lookup al) with
+    | none =>
+      exfalso
+      rw [List.findSome?_eq_none_iff] at hfs
+      rw [hfs _ hal] at hl; cases hl
+    | some y =>
+      obtain ⟨al, hal', hy⟩ := List.exists_of_findSome?_eq_some hfs
+      rcases hall al hal' with h | h
+      · rw [h] at hy; cases hy
+      · rw [h, hu] at hy; exact hy.symm
+
+omit hW wf in
+theorem convKw_some_mem (l c : List (N × V)) (h : Spec.convKw W s l = some c) :
+    ∀ e ∈ l, ∃ v', Spec.convO W (Spec.annOfKey s e.1) e.2 = some v' ∧ (e.1, v') ∈ c := by
+  induction l generalizing c with
+  | nil => intro e he; cases he
+  | cons x l ih =>
+    obtain ⟨k, v⟩ := x
+    simp only [Spec.convKw] at h
+    split at h
+    · rename_i v' r h1 h2
+      cases h
+      intro e he
+      rcases List.mem_cons.mp he with rfl | he'
+      · exact ⟨v', h1, by simp⟩
+      · obtain ⟨w, hw1, hw2⟩ := ih r h2 e he'
+        exact ⟨w, hw1, List.mem_cons_of_mem _ hw2⟩
+    · cases h
+
+omit hW wf in
+theorem convKw_none (l : List (N × V)) (h : Spec.convKw W s l = none) :
+    ∃ e ∈ l, Spec.convO W (Spec.annOfKey s e.1) e.2 = none := by
+  induction l with
+  | nil => simp [Spec.convKw] at h
+  | cons x l ih =>
+    obtain ⟨k, v⟩ := x
+    simp only [Spec.convKw] at h
+    cases h1 : Spec.convO W (Spec.annOfKey s k) v with
+    | none => exact ⟨(k, v), by simp, h1⟩
+    | some v' =>
+      cases h2 : Spec.convKw W s l with
+      | none =>
+        obtain ⟨e, he, hc⟩ := ih h2
+        exact ⟨e, List.mem_cons_of_mem _ he, hc⟩
+      | some r => simp [h1, h2] at h
+
+theorem annOfKey_field (f : Param N V T) (hkw : f ∈ Spec.kwParams s) : Spec.annOfKey s f.name = f.ann := by
+  unfold Spec.annOfKey
+  cases hfind : (Spec.kwParams s).find? (fun p => p.name == f.name) with
+  | none =>
+    exfalso
+    exact (List.find?_eq_none.mp hfind) f hkw (by simp)
+  | some q =>
+    have hq := List.mem_of_find?_eq_some hfind
+    have hn : q.name = f.name := by simpa using List.find?_some hfind
+    rw [eq_of_name_eq wf.names_nodup (kwParams_sub W hW s wf q hq).1 (kwParams_sub W hW s wf f hkw).1 hn]
+
+omit hW wf in
+/-- lookup in a list of entries produced one per parameter, names distinct -/
+theorem lookup_filterMap_names (l : List (Param N V T)) (hl : (l.map (·.name)).Nodup) (g : Param N V T → Option V)
+    (x : N) :
+    (l.filterMap (fun f => (g f).map (fun v => (f.name, v)))).lookup x
+      = match l.find? (fun f => f.name == x) with
+        | some f => g f
+        | none => none := by
+  induction l with
+  | nil => rfl
+  | cons f l ih =>
+    simp only [List.map_cons, List.nodup_cons] at hl
+    simp only [List.filterMap_cons, List.find?_cons]
+    by_cases hx : f.name = x
+    · subst hx
+      simp only [beq_self_eq_true]
+      cases hg : g f with
+      | some v => simp
+      | none =>
+        simp only [Option.map_none]
+        rw [lookup_eq_none_iff_not_mem]
+        intro hmem
+        obtain ⟨e, he, heq⟩ := List.mem_map.mp hmem
+        obtain ⟨f', hf', hfe⟩ := List.mem_filterMap.mp he
+        cases hg' : g f' with
+        | none => simp [hg'] at hfe
+        | some v =>
+          simp only [hg', Option.map_some, Option.some.injEq] at hfe
+          subst hfe
+          exact hl.1 (heq ▸ List.mem_map_of_mem hf')
+    · have hb : (f.name == x) = false := by simpa using hx
+      simp only [hb]
+      cases hg : g f with
+      | none => simpa using ih hl.2
+      | some v =>
+        have hb' : (x == f.name) = false := by simpa using fun h => hx h.symm
+        simp only [Option.map_some, List.lookup_cons, hb']
+        exact ih hl.2
+
+/-- `ffLoop` when every conversion succeeds: one entry per field that was not passed positionally (the converted
+given value, else the default), and the spellings of the fields that were given -/
+theorem ffLoop_ok (data c : List (N × V)) (h1 : ∀ e ∈ data, e.1 ∉ s.excludeVars W)
+    (hn : ((Spec.normalise W s data).map (·.1)).Nodup)
+    (hc : Spec.convKw W s (Spec.normalise W s data) = some c)
+    (hpo : ∀ f ∈ s.fields W, f.posOnly = true → excl.contains f.name = true)
+    (hreq : ∀ f ∈ s.fields W, excl.contains f.name = false →
+        ((Spec.normalise W s data).lookup f.name).isSome = true ∨ f.dflt.isSome = true)
+    (l : List (Param N V T)) (hl : (l.map (·.name)).Nodup) (hsub : ∀ f ∈ l, f ∈ s.fields W) :
+    ∀ (r : List (N × V)) (u : List N), (∀ f ∈ l, r.lookup f.name = none) →
+    ffLoop W o excl (ffData W (s.fields W) data) l r u
+      = .ok (r ++ l.filterMap (fun f =>
+              (if excl.contains f.name then none else (c.lookup f.name).or f.dflt).map (fun v => (f.name, v))),
+             u ++ l.flatMap (fun f =>
+              if excl.contains f.name || (c.lookup f.name).isNone then [] else f.allNames W)) := by
+  have hkeys : c.map (·.1) = (Spec.normalise W s data).map (·.1) := convKw_keys W s _ c hc
+  have hcn : (c.map (·.1)).Nodup := hkeys ▸ hn
+  induction l with
+  | nil => intro r u _; simp [ffLoop]
+  | cons f l ih =>
+    intro r u hfresh
+    simp only [List.map_cons, List.nodup_cons] at hl
+    have hf : f ∈ s.fields W := hsub f (by simp)
+    have hsub' : ∀ g ∈ l, g ∈ s.fields W := fun g hg => hsub g (by simp [hg])
+    unfold ffLoop
+    by_cases hex : excl.contains f.name = true
+    · simp only [hex, if_true, List.filterMap_cons, Option.map_none, List.flatMap_cons, Bool.true_or, List.nil_append]
+      exact ih hl.2 hsub' r u (fun g hg => hfresh g (by simp [hg]))
+    · have hex' : excl.contains f.name = false := by simpa using hex
+      have hkw : f ∈ Spec.kwParams s := by
+        obtain ⟨hmem, _⟩ := (mem_fields W s f).mp hf
+        have hnpo : f.posOnly = false := by
+          cases h : f.posOnly with
+          | false => rfl
+          | true => rw [hpo f hf h] at hex'; cases hex'
+        rw [mem_kwParams]
+        rcases List.mem_append.mp hmem with h | h
+        · exact Or.inl ⟨h, hnpo⟩
+        · exact Or.inr h
+      simp only [hex', Bool.false_eq_true, if_false, ffScan_field W hW s wf o data h1 hn f hf hkw]
+      have hfr : r.lookup f.name = none := hfresh f (by simp)
+      have hnm : f.name ∉ excl := by simpa using hex'
+      have hfresh' : ∀ v, ∀ g ∈ l, (r ++ [(f.name, v)]).lookup g.name = none := by
+        intro v g hg
+        have hne : g.name ≠ f.name := fun h => hl.1 (h ▸ List.mem_map_of_mem hg)
+        have hb : (g.name == f.name) = false := by simpa using hne
+        rw [List.lookup_append, hfresh g (by simp [hg])]
+        simp [List.lookup_cons, hb]
+      cases hu : (Spec.normalise W s data).lookup f.name with
+      | none =>
+        have hcl : c.lookup f.name = none := by
+          rw [lookup_eq_none_iff_not_mem, hkeys, ← lookup_eq_none_iff_not_mem]; exact hu
+        have hd : f.dflt.isSome = true := by
+          rcases hreq f hf hex' with h | h
+          · rw [hu] at h; cases h
+          · exact h
+        cases hdf : f.dflt with
+        | none => rw [hdf] at hd; cases hd
+        | some d =>
+          simp only [dictSet_fresh r f.name d hfr]
+          rw [ih hl.2 hsub' _ u (hfresh' d)]
+          simp [List.filterMap_cons, List.flatMap_cons, hnm, hcl, hdf]
+      | some v =>
+        have hmem : (f.name, v) ∈ Spec.normalise W s data := mem_of_lookup _ _ _ hu
+        obtain ⟨v', hv1, hv2⟩ := convKw_some_mem W s _ c hc _ hmem
+        have hcl : c.lookup f.name = some v' := lookup_of_mem_nodup c hcn _ hv2
+        rw [annOfKey_field W hW s wf f hkw] at hv1
+        simp only [convBy_eq, hv1, dictSet_fresh r f.name v' hfr]
+        rw [ih hl.2 hsub' _ _ (hfresh' v')]
+        simp [List.filterMap_cons, List.flatMap_cons, hnm, hcl, List.append_assoc]
+
+/-- `ffAddition` when every conversion succeeds, given which keys the field loop consumed -/
+theorem ffAddition_ok (used : List N) (rest : List (N × V)) :
+    ∀ (a c' : List (N × V)),
+    (∀ e ∈ rest, e.1 ∉ s.excludeVars W) →
+    (∀ e ∈ rest, s.kwTarget (Spec.normKey W s e.1) = true → used.contains (ffKey W (s.fields W) e.1) = true) →
+    (∀ e ∈ rest, s.kwTarget (Spec.normKey W s e.1) = false →
+        used.contains (ffKey W (s.fields W) e.1) = false ∧ Spec.normKey W s e.1 = e.1
+        ∧ Spec.annOfKey s e.1 = (match s.vk with | some (_, t) => t | none => none)) →
+    s.vk.isSome = true →
+    Spec.convKw W s (Spec.normalise W s rest) = some c' →
+    ffAddition W s used rest a = .ok (dictUpdate a (c'.filter (fun e => !isTarget s e))) := by
+  induction rest with
+  | nil =>
+    intro a c' _ _ _ _ hc
+    simp [Spec.normalise, Spec.convKw] at hc
+    subst hc
+    simp [ffAddition, dictUpdate]
+  | cons e rest ih =>
+    obtain ⟨k, v⟩ := e
+    intro a c' h1 hT hN hvk hc
+    simp only [Spec.normalise, List.map_cons, Spec.convKw] at hc
+    split at hc
+    · rename_i v' r hv hr
+      cases hc
+      have ih' := fun a => ih a r (fun e he => h1 e (by simp [he])) (fun e he => hT e (by simp [he]))
+        (fun e he => hN e (by simp [he])) hvk (by simpa [Spec.normalise] using hr)
+      unfold ffAddition
+      cases ht : s.kwTarget (Spec.normKey W s k) with
+      | true =>
+        have := hT (k, v) (by simp) ht
+        simp only [this, if_true]
+        rw [ih' a]
+        simp [isTarget, ht]
+      | false =>
+        obtain ⟨hu, hnk, hann⟩ := hN (k, v) (by simp) ht
+        simp only [hu, Bool.false_eq_true, if_false]
+        rw [parseAddition_eq W s k v (h1 (k, v) (by simp))]
+        rw [hnk, hann] at hv
+        cases hvk' : s.vk with
+        | none => rw [hvk'] at hvk; cases hvk
+        | some nt =>
+          obtain ⟨n, t⟩ := nt
+          simp only [hvk'] at hv
+          simp only [hv]
+          rw [ih' (dictSet a k v')]
+          have hnk' : Spec.normKey W s k = k := hnk
+          have : s.kwTarget k = false := by rw [← hnk']; exact ht
+          simp [isTarget, this, hnk', dictUpdate]
+    · cases hc
+
+omit hW wf in
+/-- the spellings `ffLoop` marks as used belong to fields it did not skip -/
+theorem ffLoop_used (data' : List (N × V)) (l : List (Param N V T)) :
+    ∀ (r r' : List (N × V)) (u u' : List N), ffLoop W o excl data' l r u = .ok (r', u') →
+    ∀ x ∈ u', x ∈ u ∨ ∃ g ∈ l, excl.contains g.name = false ∧ x ∈ g.allNames W := by
+  induction l with
+  | nil =>
+    intro r r' u u' h x hx
+    simp [ffLoop] at h
+    exact Or.inl (h.2 ▸ hx)
+  | cons f l ih =>
+    intro r r' u u' h x hx
+    unfold ffLoop at h
+    split at h
+    · rcases ih _ _ _ _ h x hx with h' | ⟨g, hg, h'⟩
+      · exact Or.inl h'
+      · exact Or.inr ⟨g, by simp [hg], h'⟩
+    · rename_i hex
+      have hex' : excl.contains f.name = false := by simpa using hex
+      split at h
+      · cases h
+      · split at h
+        · cases h
+        · rcases ih _ _ _ _ h x hx with h' | ⟨g, hg, h'⟩
+          · exact Or.inl h'
+          · exact Or.inr ⟨g, by simp [hg], h'⟩
+      · split at h
+        · cases h
+        · rcases ih _ _ _ _ h x hx with h' | ⟨g, hg, h'⟩
+          · rcases List.mem_append.mp h' with h'' | h''
+            · exact Or.inl h''
+            · exact Or.inr ⟨f, by simp, hex', h''⟩
+          · exact Or.inr ⟨g, by simp [hg], h'⟩
+
+omit hW wf in
+/-- a field whose given value does not convert makes the field loop fail -/
+theorem ffLoop_error (data' : List (N × V)) (f : Param N V T) (v : V) (hex : excl.contains f.name = false)
+    (hscan : ffScan o data' (f.allNames W) none = .ok (some v)) (hconv : convBy W f.ann v = .error .perr)
+    (l : List (Param N V T)) (hf : f ∈ l) :
+    ∀ (r : List (N × V)) (u : List N), ffLoop W o excl data' l r u = .error .perr := by
+  induction l with
+  | nil => cases hf
+  | cons g l ih =>
+    intro r u
+    unfold ffLoop
+    by_cases hfg : f = g
+    · subst hfg
+      simp only [hex, Bool.false_eq_true, if_false, hscan, hconv]
+    · have hf' : f ∈ l := by
+        rcases List.mem_cons.mp hf with h | h
+        · exact absurd h hfg
+        · exact h
+      split
+      · exact ih hf' _ _
+      · split
+        · rename_i e _; rw [err_eq e]
+        · split
+          · rfl
+          · exact ih hf' _ _
+        · split
+          · rename_i e _; rw [err_eq e]
+          · exact ih hf' _ _
+
+omit hW wf in
+/-- an extra key that the field loop did not consume and whose value does not convert makes the addition pass fail -/
+theorem ffAddition_error (used : List N) (e : N × V)
+    (hu : used.contains (ffKey W (s.fields W) e.1) = false) (hp : parseAddition W s e.1 e.2 = .error .perr)
+    (rest : List (N × V)) (he : e ∈ rest) :
+    ∀ (a : List (N × V)), ffAddition W s used rest a = .error .perr := by
+  induction rest with
+  | nil => cases he
+  | cons x rest ih =>
+    obtain ⟨k, v⟩ := x
+    intro a
+    unfold ffAddition
+    by_cases hxe : e = (k, v)
+    · subst hxe
+      simp only [hu, Bool.false_eq_true, if_false, hp]
+    · have he' : e ∈ rest := by
+        rcases List.mem_cons.mp he with h | h
+        · exact absurd h hxe
+        · exact h
+      split
+      · exact ih he' _
+      · split
+        · rename_i e' _; rw [err_eq e']
+        · exact ih he' _
+
+/-- classification of a keyword of the call, with what the field-first pass needs -/
+theorem key_cases' (kw : List (N × V))
+    (h1 : ∀ e ∈ kw, e.1 ∉ s.excludeVars W)
+    (h3 : ∀ e ∈ kw, ∀ f, resolve W (s.fields W) e.1 = some f → f.posOnly = false → excl.contains f.name = false)
+    (e : N × V) (he : e ∈ kw) :
+    (∃ f, f ∈ s.fields W ∧ f ∈ Spec.kwParams s ∧ Spec.normKey W s e.1 = f.name ∧ Matches W f e.1
+        ∧ excl.contains f.name = false ∧ s.kwTarget f.name = true)
+    ∨ (Spec.normKey W s e.1 = e.1 ∧ s.kwTarget e.1 = false
+        ∧ Spec.annOfKey s e.1 = (match s.vk with | some (_, t) => t | none => none)) := by
+  cases hr : resolve W (s.fields W) e.1 with
+  | none => exact Or.inr (key_extra W hW s wf e.1 (h1 e he) (Or.inl hr))
+  | some f =>
+    cases hpo : f.posOnly with
+    | true => exact Or.inr (key_extra W hW s wf e.1 (h1 e he) (Or.inr ⟨f, hr, hpo⟩))
+    | false =>
+      obtain ⟨a, b, c, d, _⟩ := key_field W hW s wf e.1 (h1 e he) f hr hpo
+      obtain ⟨hf, hm⟩ := matches_of_resolve W hW s wf e.1 f hr
+      exact Or.inl ⟨f, hf, b, a, hm, h3 e he f hr hpo, d⟩
+
+theorem fieldFirst_obs (kw : List (N × V))
+    (h1 : ∀ e ∈ kw, e.1 ∉ s.excludeVars W)
+    (h3 : ∀ e ∈ kw, ∀ f, resolve W (s.fields W) e.1 = some f → f.posOnly = false → excl.contains f.name = false)
+    (h5 : s.vk = none → ∀ e ∈ kw, s.kwTarget (Spec.normKey W s e.1) = true)
+    (hn : ((Spec.normalise W s kw).map (·.1)).Nodup)
+    (hpo : ∀ f ∈ s.fields W, f.posOnly = true → excl.contains f.name = true)
+    (hreq : ∀ f ∈ s.fields W, excl.contains f.name = false →
+        ((Spec.normalise W s kw).lookup f.name).isSome = true ∨ f.dflt.isSome = true) :
+    match Spec.convKw W s (Spec.normalise W s kw) with
+    | none => fieldFirst W s o excl kw = .error .perr
+    | some c => ∃ kw', fieldFirst W s o excl kw = .ok kw' ∧ Obs W s excl c kw' := by
+  -- a non-excluded field is keyword-capable
+  have hkwp : ∀ f ∈ s.fields W, excl.contains f.name = false → f ∈ Spec.kwParams s := by
+    intro f hf hex
+    obtain ⟨hmem, _⟩ := (mem_fields W s f).mp hf
+    have hnpo : f.posOnly = false := by
+      cases h : f.posOnly with
+      | false => rfl
+      | true => rw [hpo f hf h] at hex; cases hex
+    rw [mem_kwParams]
+    rcases List.mem_append.mp hmem with h | h
+    · exact Or.inl ⟨h, hnpo⟩
+    · exact Or.inr h
+  -- an extra key is looked up under no spelling of a field that was not skipped
+  have hextra : ∀ e ∈ kw, Spec.normKey W s e.1 = e.1 → s.kwTarget e.1 = false →
+      ∀ g ∈ s.fields W, excl.contains g.name = false → ffKey W (s.fields W) e.1 ∉ g.allNames W := by
+    intro e he hnk hnt g hg hex hmem
+    have hm := (ffKey_mem_iff W hW s wf g hg e.1).mp hmem
+    have := (normKey_eq_iff W hW s wf g hg (hkwp g hg hex) e.1 (h1 e he)).mpr hm
+    rw [hnk] at this
+    rw [this, (kwTarget_iff s _).mpr ⟨g, hkwp g hg hex, rfl⟩] at hnt
+    cases hnt
+  cases hc : Spec.convKw W s (Spec.normalise W s kw) with
+  | none =>
+    obtain ⟨e', he', hfail⟩ := convKw_none W s _ hc
+    simp only [Spec.normalise, List.mem_map] at he'
+    obtain ⟨e, he, rfl⟩ := he'
+    simp only at hfail
+    rcases key_cases' W hW s wf excl kw h1 h3 e he with ⟨f, hf, hkw, hnk, hm, hex, _⟩ | ⟨hnk, hnt, hann⟩
+    · rw [hnk, annOfKey_field W hW s wf f hkw] at hfail
+      have hscan := ffScan_field W hW s wf o kw h1 hn f hf hkw
+      have hmem : (f.name, e.2) ∈ Spec.normalise W s kw := by
+        simp only [Spec.normalise, List.mem_map]; exact ⟨e, he, by rw [hnk]⟩
+      have hlk := lookup_of_mem_nodup _ hn _ hmem
+      simp only at hlk
+      rw [hlk] at hscan
+      have hconv : convBy W f.ann e.2 = .error .perr := by rw [convBy_eq, hfail]
+      simp only [fieldFirst, ffLoop_error W o excl _ f e.2 hex hscan hconv (s.fields W) hf [] []]
+    · rw [hnk, hann] at hfail
+      cases hvk : s.vk with
+      | none =>
+        exfalso
+        have := h5 hvk e he
+        rw [hnk, hnt] at this; cases this
+      | some nt =>
+        obtain ⟨n, t⟩ := nt
+        simp only [hvk] at hfail
+        have hp : parseAddition W s e.1 e.2 = .error .perr := by
+          rw [parseAddition_eq W s e.1 e.2 (h1 e he), hvk]; simp only [hfail]
+        unfold fieldFirst
+        cases hloop : ffLoop W o excl (ffData W (s.fields W) kw) (s.fields W) [] [] with
+        | error e' => simp only [err_eq e']
+        | ok ru =>
+          obtain ⟨r, u⟩ := ru
+          have hu : u.contains (ffKey W (s.fields W) e.1) = false := by
+            cases hcon : u.contains (ffKey W (s.fields W) e.1) with
+            | false => rfl
+            | true =>
+              exfalso
+              have hx : ffKey W (s.fields W) e.1 ∈ u := by simpa using hcon
+              rcases ffLoop_used W o excl _ _ _ _ _ _ hloop _ hx with h | ⟨g, hg, hex, hmem⟩
+              · cases h
+              · exact hextra e he hnk hnt g hg hex hmem
+          simp only [hvk, Option.isSome_some, if_true, ffAddition_error W s u e hu hp kw he []]
+  | some c =>
+    have hkeys : c.map (·.1) = (Spec.normalise W s kw).map (·.1) := convKw_keys W s _ c hc
+    have hcn : (c.map (·.1)).Nodup := hkeys ▸ hn
+    have hloop := ffLoop_ok W hW s wf o excl kw c h1 hn hc hpo hreq (s.fields W) (fields_names_nodup W s wf)
+      (fun f hf => hf) [] [] (by intro f _; rfl)
+    simp only [List.nil_append] at hloop
+    obtain ⟨E, hE⟩ : ∃ E, E = (s.fields W).filterMap (fun f =>
+      (if excl.contains f.name then none else (c.lookup f.name).or f.dflt).map (fun v => (f.name, v))) := ⟨_, rfl⟩
+    obtain ⟨U, hU⟩ : ∃ U, U = (s.fields W).flatMap (fun f =>
+      if excl.contains f.name || (c.lookup f.name).isNone then [] else f.allNames W) := ⟨_, rfl⟩
+    rw [← hE, ← hU] at hloop
+    have hElook : ∀ x, E.lookup x = match (s.fields W).find? (fun f => f.name == x) with
+        | some f => if excl.contains f.name then none else (c.lookup f.name).or f.dflt
+        | none => none := by
+      intro x; rw [hE]
+      exact lookup_filterMap_names (s.fields W) (fields_names_nodup W s wf) _ x
+    have hEmem : ∀ e ∈ E, ∃ f ∈ s.fields W, e.1 = f.name ∧ excl.contains f.name = false := by
+      intro e he
+      rw [hE] at he
+      obtain ⟨f, hf, hfe⟩ := List.mem_filterMap.mp he
+      by_cases hex : excl.contains f.name = true
+      · simp only [hex, if_true, Option.map_none] at hfe
+        cases hfe
+      · have hex' : excl.contains f.name = false := by simpa using hex
+        simp only [hex', Bool.false_eq_true, if_false] at hfe
+        cases hv : (c.lookup f.name).or f.dflt with
+        | none => simp [hv] at hfe
+        | some v =>
+          simp only [hv, Option.map_some, Option.some.injEq] at hfe
+          subst hfe
+          exact ⟨f, hf, rfl, hex'⟩
+    have hEtarget : ∀ e ∈ E, isTarget s e = true := by
+      intro e he
+      obtain ⟨f, hf, hn', hex⟩ := hEmem e he
+      show s.kwTarget e.1 = true
+      rw [hn']
+      exact (kwTarget_iff s _).mpr ⟨f, hkwp f hf hex, rfl⟩
+    have hUmem : ∀ x ∈ U, ∃ g ∈ s.fields W, excl.contains g.name = false ∧ x ∈ g.allNames W := by
+      intro x hx
+      rw [hU] at hx
+      obtain ⟨g, hg, hxg⟩ := List.mem_flatMap.mp hx
+      by_cases hcond : (excl.contains g.name || (c.lookup g.name).isNone) = true
+      · simp only [hcond, if_true] at hxg
+        cases hxg
+      · have hcond' := Bool.eq_false_iff.mpr hcond
+        simp only [Bool.or_eq_false_iff] at hcond'
+        simp only [hcond, Bool.false_eq_true, if_false] at hxg
+        exact ⟨g, hg, hcond'.1, hxg⟩
+    obtain ⟨A, hA⟩ : ∃ A, A = c.filter (fun e => !isTarget s e) := ⟨_, rfl⟩
+    have hAn : (A.map (·.1)).Nodup := by
+      rw [hA]; exact List.Pairwise.sublist (List.Sublist.map _ List.filter_sublist) hcn
+    have hAmem : ∀ e ∈ A, s.kwTarget e.1 = false := by
+      intro e he
+      rw [hA] at he
+      have := (List.mem_filter.mp he).2
+      simpa [isTarget] using this
+    have hAfresh : ∀ e ∈ A, E.lookup e.1 = none := by
+      intro e he
+      rw [lookup_eq_none_iff_not_mem]
+      intro hmem
+      obtain ⟨e', he', heq⟩ := List.mem_map.mp hmem
+      have := hEtarget e' he'
+      simp only [isTarget, heq, hAmem e he] at this
+      cases this
+    -- the result
+    have hres : fieldFirst W s o excl kw = .ok (E ++ A) := by
+      unfold fieldFirst
+      simp only [hloop]
+      cases hvk : s.vk with
+      | none =>
+        have : A = [] := by
+          rw [hA, List.filter_eq_nil_iff]
+          intro e' he'
+          have hk : e'.1 ∈ c.map (·.1) := List.mem_map_of_mem he'
+          rw [hkeys] at hk
+          simp only [Spec.normalise, List.map_map, List.mem_map, Function.comp] at hk
+          obtain ⟨e, he, heq⟩ := hk
+          have := h5 hvk e he
+          simp [isTarget, ← heq, this]
+        simp [this]
+      | some nt =>
+        simp only [Option.isSome_some, if_true]
+        rw [ffAddition_ok W hW s wf U kw [] c h1 ?_ ?_ (by simp [hvk]) hc]
+        · simp only
+          rw [← hA, dictUpdate_fresh [] A hAn (by intro e _; rfl), List.nil_append,
+            dictUpdate_fresh E A hAn hAfresh]
+        · intro e he ht
+          rcases key_cases' W hW s wf excl kw h1 h3 e he with ⟨f, hf, hkw, hnk, hm, hex, _⟩ | ⟨hnk, hnt, _⟩
+          · have hmemn : (f.name, e.2) ∈ Spec.normalise W s kw := by
+              simp only [Spec.normalise, List.mem_map]; exact ⟨e, he, by rw [hnk]⟩
+            have hcs : (c.lookup f.name).isSome = true := by
+              rw [lookup_isSome_iff, hkeys]; exact List.mem_map_of_mem hmemn
+            have : ffKey W (s.fields W) e.1 ∈ U := by
+              rw [hU]
+              refine List.mem_flatMap.mpr ⟨f, hf, ?_⟩
+              have hcn' : (c.lookup f.name).isNone = false := by
+                cases hh : c.lookup f.name with
+                | none => rw [hh] at hcs; cases hcs
+                | some _ => rfl
+              simp only [hex, hcn', Bool.or_self, Bool.false_eq_true, if_false]
+              exact (ffKey_mem_iff W hW s wf f hf e.1).mpr hm
+            simpa using this
+          · rw [hnk, hnt] at ht; cases ht
+        · intro e he ht
+          rcases key_cases' W hW s wf excl kw h1 h3 e he with ⟨f, hf, hkw, hnk, hm, hex, htt⟩ | ⟨hnk, hnt, hann⟩
+          · rw [hnk, htt] at ht; cases ht
+          · refine ⟨?_, hnk, hann⟩
+            cases hcon : U.contains (ffKey W (s.fields W) e.1) with
+            | false => rfl
+            | true =>
+              exfalso
+              obtain ⟨g, hg, hex, hmem⟩ := hUmem _ (by simpa using hcon)
+              exact hextra e he hnk hnt g hg hex hmem
+    refine ⟨E ++ A, hres, ?_, ?_⟩
+    · intro p hp
+      have ht : s.kwTarget p.name = true := (kwTarget_iff s _).mpr ⟨p, hp, rfl⟩
+      have hAl : A.lookup p.name = none := by
+        rw [hA]; exact lookup_filter_key_none c (fun k => !s.kwTarget k) p.name (by simp [ht])
+      rw [List.lookup_append, hAl, Option.or_none, hElook]
+      obtain ⟨hpmem, _⟩ := kwParams_sub W hW s wf p hp
+      by_cases hpriv : W.priv p.name = true
+      · simp only [hpriv, Bool.true_or, if_true]
+        cases hfind : (s.fields W).find? (fun f => f.name == p.name) with
+        | none => rfl
+        | some f =>
+          exfalso
+          have hf := List.mem_of_find?_eq_some hfind
+          have hfn : f.name = p.name := by simpa using List.find?_some hfind
+          have := eq_of_name_eq wf.names_nodup ((mem_fields W s f).mp hf).1 hpmem hfn
+          subst this
+          rw [((mem_fields W s f).mp hf).2] at hpriv; cases hpriv
+      · have hpriv' : W.priv p.name = false := by simpa using hpriv
+        have hpf : p ∈ s.fields W := (mem_fields W s p).mpr ⟨hpmem, hpriv'⟩
+        cases hfind : (s.fields W).find? (fun f => f.name == p.name) with
+        | none =>
+          exfalso
+          exact (List.find?_eq_none.mp hfind) p hpf (by simp)
+        | some f =>
+          have hf := List.mem_of_find?_eq_some hfind
+          have hfn : f.name = p.name := by simpa using List.find?_some hfind
+          have := eq_of_name_eq wf.names_nodup ((mem_fields W s f).mp hf).1 hpmem hfn
+          subst this
+          simp [hpriv']
+    · rw [List.filter_append]
+      have e1 : E.filter (fun e => !isTarget s e) = [] := by
+        rw [List.filter_eq_nil_iff]
+        intro e he
+        simp [hEtarget e he]
+      have e2 : A.filter (fun e => !isTarget s e) = A := by
+        rw [List.filter_eq_self]
+        intro e he
+        simp [isTarget, hAmem e he]
+      rw [e1, e2, hA]; rfl
+
+end fieldFirst
+
 end Utv.C08
